@@ -1,6 +1,12 @@
 package main
 
-import "verif/engine/interp"
+import (
+	"sort"
+	"strconv"
+	"strings"
+
+	"verif/engine/interp"
+)
 
 func init() {
 	props["C12"] = &propImpl{files: []string{"h_lib.go", "h_kinds.go", "h_c12.go"}, run: runC12}
@@ -43,11 +49,93 @@ func runC12(c *Check) error {
 	return corpusShapes(c, "H_C12_Parsed", 0, false, 6_000_000)
 }
 
+// slotLexemes: which texts the parser of the current tree stores in which token slot
+// (kind -> "Slot=a\x02b\x01Slot2=c"), learned natively from the corpus programs.
+func (c *Check) slotLexemes() (map[string]string, int, error) {
+	snips, err := loadCorpus()
+	if err != nil {
+		return nil, 0, err
+	}
+	var cases []NativeCase
+	for _, ver := range []string{"7.4", "5.6"} {
+		for _, s := range snips {
+			if s.okFor(ver) {
+				cases = append(cases, NativeCase{ID: len(cases), Entry: "H_C15_Lexemes", Params: map[string]interface{}{"src": s.Src, "ver": ver}})
+			}
+		}
+	}
+	res, err := c.R.Replay(cases, c.Workers)
+	if err != nil {
+		return nil, 0, err
+	}
+	sets := map[string]map[string]map[string]bool{}
+	n := 0
+	for _, r := range res {
+		if r == nil || r.Outcome != "ok" {
+			continue
+		}
+		for _, o := range r.Obs {
+			if o.Tag != "lex" {
+				continue
+			}
+			txt, _ := strconv.Unquote(o.Val)
+			for _, e := range strings.Split(txt, "\x01") {
+				eq := strings.IndexByte(e, '=')
+				dot := strings.IndexByte(e, '.')
+				if eq < 0 || dot < 0 || dot > eq {
+					continue
+				}
+				kind, slot, lx := e[:dot], e[dot+1:eq], e[eq+1:]
+				if sets[kind] == nil {
+					sets[kind] = map[string]map[string]bool{}
+				}
+				if sets[kind][slot] == nil {
+					sets[kind][slot] = map[string]bool{}
+				}
+				if !sets[kind][slot][lx] {
+					sets[kind][slot][lx] = true
+					n++
+				}
+			}
+		}
+	}
+	out := map[string]string{}
+	for kind, slots := range sets {
+		var parts []string
+		var names []string
+		for sl := range slots {
+			names = append(names, sl)
+		}
+		sort.Strings(names)
+		for _, sl := range names {
+			var lx []string
+			for l := range slots[sl] {
+				lx = append(lx, l)
+			}
+			sort.Strings(lx)
+			parts = append(parts, sl+"="+strings.Join(lx, "\x02"))
+		}
+		out[kind] = strings.Join(parts, "\x01")
+	}
+	return out, n, nil
+}
+
 func runC15(c *Check) error {
-	needs, err := kindJobs(c, "H_C15_Kind", "printed", nil)
+	lex, nlex, err := c.slotLexemes()
 	if err != nil {
 		return err
 	}
+	_, kinds, err := genWalkSource()
+	if err != nil {
+		return err
+	}
+	var needs []JobNeed
+	for k, kd := range kinds {
+		needs = append(needs, JobNeed{Job: &interp.Job{Entry: "H_C15_Kind", Tag: "kind", Params: map[string]interface{}{"kind": k, "lex": lex[kd.Name]}}, Cover: []string{"printed"}})
+	}
+	c.Extra["node_kinds"] = len(kinds)
+	c.Extra["slot_lexemes_learned"] = nlex
+	c.Bounds = append(c.Bounds, "canonical lexemes: where exactly one token slot (or the separators of one list) is absent, the text printed in its place must be one the parser of this tree stores in that slot of that node kind (learned on this run from the corpus programs, case-insensitively; slots never seen with a token are reported as lexeme-unconstrained)")
 	c.Bounds = append(c.Bounds,
 		"every node kind of pkg/ast/node.go: every token and child slot present or absent (full product up to 6 such slots, otherwise all-present, all-absent, each single slot absent, each single slot present), lists of length 0..3 with separators none / len-1 / len / only the first of two")
 	c.Assumptions = append(c.Assumptions, stdAssumptions...)
